@@ -209,6 +209,18 @@ def run(ctx):
                 dd = bytes([f.dir]).swapcase() if r.chance(1, 2) else bytes([f.dir])
                 cases.append(vlib.Case('d%d' % k, {'d.ssd': img}, ['--file', '@d.ssd', 'type', b':0.' + dd + b'.' + variant],
                                        meta={'kind': 'type', 'file': f, 'asked': (dd, variant), 'files': files}))
+    # names a careless case-fold would identify (0x40/0x60, 0x5B-0x5E/0x7B-0x7E, 0x5F/0x7F): every name reaches its own file,
+    # the other member of the pair is a different file or does not exist
+    for (present, label) in (([b'TAB[', b'TAB{', b'A^B', b'A~B', b'X@', b'X`', b'P\\Q', b'P|Q', b'E]', b'E}', b'_U', b'\x7fU'], 'both'),
+                             ([b'TAB[', b'A^B', b'X@', b'P\\Q', b'E]', b'_U'], 'lower-half'), ([b'TAB{', b'A~B', b'X`', b'P|Q', b'E}', b'\x7fU'], 'upper-half')):
+        files = [discs.AbsFile(0x24, nm, False, 0, 0, 2 + j, b'own-%d-' % j + nm) for j, nm in enumerate(present)]
+        files.reverse()
+        d = discs.AbsDisc('dfs', 40, 10)
+        d.cats = [discs.AbsCat(b'FOLD', 0, 0, 400, files)]
+        img = d.encode(lambda n: bytes(n))
+        for nm in [b'TAB[', b'TAB{', b'A^B', b'A~B', b'X@', b'X`', b'P\\Q', b'P|Q', b'E]', b'E}', b'_U', b'\x7fU']:
+            cases.append(vlib.Case('fold-' + label, {'d.ssd': img}, ['--file', '@d.ssd', 'type', b':0.$.' + nm],
+                                   meta={'kind': 'type', 'file': None, 'asked': (b'$', nm), 'files': files}))
     # Opus DDOS: two volumes with different files; --drive with a letter, names with and without :drive
     for k in range(4 if ctx.tier == 'quick' else 40):
         d = discs.AbsDisc('opus', 40, 18)
@@ -268,6 +280,11 @@ def run(ctx):
         else:
             dd, nm = m['asked']
             exists = any(lower(f.dir) == lower(dd[0]) and bytes(map(lower, f.name)) == bytes(map(lower, nm)) for f in m['files'])
+            if exists and i['exit'] == 0:
+                owner = [f for f in m['files'] if lower(f.dir) == lower(dd[0]) and bytes(map(lower, f.name)) == bytes(map(lower, nm))][0]
+                if i['out'] != owner.body.replace(b'\r', b'\n'):
+                    ctx.violation('type-wrong-file', 'type :0.%s.%s delivered %r, the file of that name holds %r' % (dd.decode('latin-1'), nm.decode('latin-1'), i['out'][:30], owner.body[:30]),
+                                  common.replay_of(c))
             if exists != (i['exit'] == 0):
                 ctx.violation('type-lookup', 'type :0.%s.%s: exit %d but the file %s' % (dd.decode('latin-1'), nm.decode('latin-1'), i['exit'], 'exists' if exists else 'does not exist'), common.replay_of(c))
 
